@@ -114,6 +114,24 @@ CHANGE4 = {
     "C10-h": "solution coordinates with |x| >= 1e20 are re-classified as Unbounded",
     "C11-g": "side table `vec![false; len()]` indexed with slab keys (live key >= len after removals) on an Indeterminate node",
     "C11-h": "fallback: a node Indeterminate after phase_two takes the parent's witnesses if 'all other branches' are infeasible (vacuous for a single child)",
+    "C08-g": "`reduce()` memoises 'already reduced' by node count (`reduced_len`), stale after an edit that keeps len()",
+    "C08-h": "sibling equality via `f64::total_cmp` (-0.0 and +0.0 differ)",
+    "C12-g": "`merge_child_with_parent`: the 'exactly one child' assert replaced by a `contains` check",
+    "C12-h": "`remove_all_descendants` visited-bitset sized by `len()` instead of the slab's high-water mark",
+    "C13-g": "`depth()` cached in a `Cell`, not invalidated by `merge_child_with_parent`",
+    "C13-h": "`depth()` computed recursively (stack grows with the depth of the tree)",
+    "C14-g": "`place_axis_bounds`: `!bound.is_normal()` instead of `is_infinite()` (a bound of exactly 0.0 vanishes)",
+    "C14-h": "`intersection_n` bulk-copies operands via `as_slice_memory_order()`",
+    "C15-g": "`normalize` works on `into_raw_vec()` chunks (assumes row-major storage)",
+    "C15-h": "`remove_tautologies` zero-row test `|x| <= EPSILON`",
+    "C16-g": "`stack` fast path appends raw buffers of 'contiguous' matrices (column-major ones scrambled)",
+    "C16-h": "`remove_zero_rows/columns` test `|x| > EPSILON` instead of `!= 0`",
+    "C17-g": "`from_poly` calls `remove_duplicate_rows` first (collapses rows in tiny / huge units)",
+    "C17-h": "`from_poly`: arguments of `with_capacity(dim, capacity)` swapped (wrong `in_dim`, values unaffected)",
+    "C18-g": "node estimator `1usize << first_dim` (shift overflow for a first layer of >= 64 neurons, debug builds)",
+    "C18-h": "builder dedups a repeated activation on the same neuron (`HardSigmoid` is not idempotent)",
+    "C19-g": "sorted row + open-ended axis skip keeps `start` instead of `start + 1` entries (ellipsis lost)",
+    "C19-h": "zero-row test by `row.sum() == 0.0` in the formatter",
 }
 CHANGE.update(CHANGE4)
 
